@@ -497,5 +497,41 @@ def r09_6(ctx):
     delegate(ctx, c01.r01_6, lambda c: True)
 
 
+def r09_7(ctx):
+    """R09.7 the default-resolution walk of a load terminates on every accepted tree: Symbol/Choice.resolve_defaults() and
+    resolve_vis() recurse over `dependencies`, which is *not* the graph the loop check proved acyclic (it also holds the
+    conditions of the symbol's own select / imply statements: `A select T if C`, `C depends on A` is legal). Each resolver
+    therefore marks itself (`_defaults_resolved = True`) before it calls resolve_vis() or a dependency's
+    resolve_defaults()."""
+    repo = ctx.repo
+
+    def ev(n):
+        if isinstance(n, (ast.If, ast.For, ast.While, ast.With, ast.Try)):
+            return []
+        return ["mark"] if isinstance(n, ast.Assign) and any(ast.unparse(t) == "self._defaults_resolved" for t in n.targets) \
+            and isinstance(n.value, ast.Constant) and n.value.value is True else []
+
+    def kill(n):
+        if isinstance(n, (ast.If, ast.For, ast.While, ast.With, ast.Try)):
+            return []
+        return ["mark"] if isinstance(n, ast.Assign) and any(ast.unparse(t) == "self._defaults_resolved" for t in n.targets) \
+            and isinstance(n.value, ast.Constant) and n.value.value is False else []
+
+    for cls in ("Symbol", "Choice"):
+        f = repo.func(f"{CORE}:{cls}.resolve_defaults")
+        ctx.analysed(f.qual)
+        fl = Flow(f.node, resolver=Resolver(f.node), events=ev).run()
+        calls = [n for n in ast.walk(f.node) if isinstance(n, ast.Call) and isinstance(n.func, ast.Attribute) and n.func.attr in ("resolve_vis", "resolve_defaults")
+                 and (n.func.attr == "resolve_defaults" or ast.unparse(n.func.value) == "self")]
+        if not calls:
+            raise AnchorError(f"{cls}.resolve_defaults: no recursive walk found")
+        for i, c in enumerate(calls):
+            construct = f"{cls}.resolve_defaults/recursive call #{i + 1} `{ast.unparse(c.func)}` runs with the resolver marked"
+            evs = fl.events_at(c)
+            (ctx.ok(construct, f.loc(c)) if evs is not None and "mark" in evs else
+             ctx.bad(construct, "the walk can come back to this symbol/choice before it is marked (a select / imply condition of its own leads back "
+                     "here on a tree the loop check accepts): unbounded recursion while a tool-written sdkconfig is loaded", f.loc(c)))
+
+
 def rules():
-    return [("R09.6", r09_6, 6), ("R09.1", r09_1, 14), ("R09.1b", r09_1b, 3), ("R09.2", r09_2, 6), ("R09.3", r09_3, 8), ("R09.4", r09_4, 5), ("R09.5", r09_5, 10)]
+    return [("R09.7", r09_7, 4), ("R09.6", r09_6, 6), ("R09.1", r09_1, 14), ("R09.1b", r09_1b, 3), ("R09.2", r09_2, 6), ("R09.3", r09_3, 8), ("R09.4", r09_4, 5), ("R09.5", r09_5, 10)]
